@@ -365,7 +365,7 @@ def no_init_classes(ctx, only=None):
     import typing
     import icontract
 
-    for kind in ("plain", "namedtuple", "own-new"):
+    for kind in ("plain", "namedtuple", "own-new", "sub-class-with-init"):
         for route in ("condition-calls-method", "repr-calls-method"):
             for ok in (True, False):
                 key = [kind, route, ok]
@@ -394,6 +394,14 @@ def no_init_classes(ctx, only=None):
                         Base = typing.NamedTuple("Base", [("x", int)])
                         P = icontract.invariant(inv)(type("P", (Base,), {"double": double, "__repr__": rep, "__slots__": ()}))
                         make = lambda: P(3)  # noqa
+                    elif kind == "sub-class-with-init":
+                        # the class given the invariant has no __init__ (its __new__ is wrapped); a DBC sub-class adds one
+                        Base = icontract.invariant(inv)(type(icontract.DBC)("Base", (icontract.DBC,), {"double": double, "__repr__": rep}))
+
+                        def sub_init(self, x):
+                            self.x = x
+                        P = type(Base)("P", (Base,), {"__init__": sub_init})
+                        make = lambda: P(3)  # noqa
                     else:
                         def new(cls, x):
                             o = object.__new__(cls)
@@ -402,8 +410,14 @@ def no_init_classes(ctx, only=None):
                         P = icontract.invariant(inv)(type("P", (), {"__new__": new, "double": double, "__repr__": rep}))
                         make = lambda: P(3)  # noqa
                     try:
-                        make()
+                        o = make()
                         got = ("constructed", list(log), "")
+                        # afterwards the object is checked like any other: a call from outside is wrapped by the invariant
+                        del log[:]
+                        o.double()
+                        around = ["inv", "double", "double", "inv", "double"] if route == "condition-calls-method" else ["inv", "double", "inv"]
+                        if log != around:
+                            got = ("constructed, but a later call evaluated %r instead of %r" % (log, around), None, "")
                     except icontract.ViolationError as e:
                         got = ("violation", [x for x in log if x == "inv"], "address" if " at 0x" in str(e) else "")
                     except RecursionError:
